@@ -10,7 +10,15 @@ T_Reset == IsEvent("reset") /\ sent' = RFresh.sent /\ resolvedMax' = RFresh.reso
            /\ maxLatest' = RFresh.maxLatest /\ paths' = RFresh.paths /\ preDiscard' = RFresh.preDiscard /\ closing' = RFresh.closing /\ prevRtt' = RFresh.prevRtt
 T_TxP == IsEvent("txp") /\ TxSeen(Rec[l].sp, Rec[l].pn, Rec[l].cc)
 T_Sent == IsEvent("packet_sent") /\ LET r == Rec[l] IN IF r.sp \in Sp THEN PacketSent(r.sp, r.pn, r.len, r.t) ELSE UNCHANGED rvars
-T_Ack == IsEvent("ack_range") /\ LET r == Rec[l] IN AckRange(r.sp, r.lo, r.hi)
+\* ack_range_received is published BEFORE the range is validated (recovery/manager.rs): a range naming a packet that was never
+\* sent is admissible only if the endpoint reacts by closing at once - the next packet it builds is its CONNECTION_CLOSE and
+\* nothing is declared lost or sent in between (RFC 9000 13.1); it resolves nothing
+UnsentAckRefused(i) == LET J == {j \in (i + 1)..NRec : Rec[j].ev \in {"txf", "packet_sent", "packet_lost"}} IN
+                       J # {} /\ Rec[CHOOSE j \in J : \A k \in J : j <= k].ev = "txf"
+T_Ack == IsEvent("ack_range") /\ LET r == Rec[l] IN
+           IF r.hi > resolvedMax[r.sp] /\ ~closing THEN UnsentAckRefused(l) /\ UNCHANGED rvars
+           ELSE IF r.hi > resolvedMax[r.sp] THEN UNCHANGED rvars
+           ELSE AckRange(r.sp, r.lo, r.hi)
 T_Lost == IsEvent("packet_lost") /\ LET r == Rec[l] IN PacketLost(r.sp, r.pn, r.t, r.spath)
 T_Metrics == IsEvent("metrics") /\ LET r == Rec[l] IN Metrics(r.path, r.srtt, r.latest, r.min_rtt, r.bif, r.pto_count)
 T_Discard == IsEvent("space_discarded") /\ (IF Rec[l].sp \in Sp THEN SpaceDiscarded(Rec[l].sp) ELSE UNCHANGED rvars)
